@@ -19,7 +19,7 @@ RULE = ("modules of function/macro definitions (0..4 parameters in all single-ar
         "[**kwargs]). Non-trivial: >=2 definitions, and (a cmake_parse_arguments that is not directly in a top-level "
         "definition's body, or a non-empty strip pattern that matches a definition name or a parameter); distinct by "
         "SHA-1 of the case")
-RULE_MORE = 'nested definitions that repeat their undocumented enclosing definition exactly, followed by a cmake_parse_arguments in the outer body; large modules as in C01.'
+RULE_MORE = 'nested definitions that repeat their undocumented enclosing definition exactly, followed by a cmake_parse_arguments in the outer body; large modules as in C01. Later: parameters with non-ASCII letters; doccommented cmake_parse_arguments calls; patterns with \\w / \\W.'
 ASSUMPTIONS = ["Python's re computes the expected stripping (the regex engine is not under test)",
                "trigger strings are non-empty and free of ']]'"]
 BUDGET = {"quick": {"shards": 4, "examples": 300}, "thorough": {"shards": 16, "examples": 4000}}
